@@ -286,10 +286,21 @@ def _run(ck, m):
         for b in sess:
             for bi, t in b.calls():
                 cb_ = P.bodies.get(callee(t))
-                if cb_ is not None and cb_.id not in seen_h and not t['f'].get('ind') and repl.role_switch(m, cb_) \
-                        and any('ClusterMember' in ty for ty in cb_.locals[1:cb_.argc + 1]):
+                if cb_ is None or cb_.id in seen_h or t['f'].get('ind'):
+                    continue
+                # the helper gets the member, or the client (and reads the member recorded for the link itself)
+                takes = any('ClusterMember' in ty or ty.endswith('bo::Client') for ty in cb_.locals[1:cb_.argc + 1])
+                if repl.role_switch(m, cb_) and takes:
                     seen_h.add(cb_.id)
                     hc.append(cb_)
+                elif takes:
+                    # one more level: disconnect helper -> member helper
+                    for bi2, t2 in cb_.calls():
+                        cb2 = P.bodies.get(callee(t2))
+                        if cb2 is not None and cb2.id not in seen_h and not t2['f'].get('ind') and repl.role_switch(m, cb2) \
+                                and any('ClusterMember' in ty for ty in cb2.locals[1:cb2.argc + 1]):
+                            seen_h.add(cb2.id)
+                            hc.append(cb2)
     if len(hc) != 1:
         ck.undecided('C07.d', 'tcp', 'disconnect', 'expected one TCP session body switching over the peer role, found %d' % len(hc))
     else:
